@@ -248,6 +248,27 @@ def replay_memo(args):
         if changed or differ:
             return True, f"fact_matrices(nf={args['nf']}) changed memo entries {changed[:3]}; second answer differs for {differ[:3]}"
         return False, "memo untouched, same answer"
+    if args.get("what") == "compute_raw":
+        # the structural claim (every block convolved from the RSL of its own (label, nf)) is stronger than the property: a correct re-use of an
+        # nf-independent block would fail it.  The numbers decide: real convolutions on a small real eko basis, used manager vs fresh managers.
+        from eko.interpolation import InterpolatorDispatcher, XGrid
+        from yadism.esf import scale_variations as svmod
+
+        interp = InterpolatorDispatcher(XGrid([0.1, 0.4, 1.0], False), 1, mode_N=False)
+        shared = svmod.ScaleVariations(order=2, interpolator=interp, activate_ren=True, activate_fact=True)
+        for nf in args["seq"]:
+            shared.compute_raw(nf)
+        bad = []
+        for nf in sorted(set(args["seq"])):
+            fresh = svmod.ScaleVariations(order=2, interpolator=interp, activate_ren=True, activate_fact=True)
+            fresh.compute_raw(nf)
+            for (l, n), op in fresh.operators.items():
+                got = shared.operators.get((l, n))
+                if got is None or not np.allclose(np.asarray(got, dtype=float), np.asarray(op, dtype=float), rtol=1e-7, atol=1e-10):
+                    bad.append((l, n))
+        if bad:
+            return True, f"after compute_raw for nf={args['seq']} the manager holds other building blocks than a fresh manager for {bad[:4]} (real convolutions, 3-node basis)"
+        return False, "same building blocks as fresh managers"
     # the other memo checks are concrete and deterministic: the failing observation itself is the replay
     return True, f"memo check '{args.get('what')}' failed on the real code (deterministic concrete run, see c14.py part 3)"
 
@@ -436,9 +457,24 @@ def run(chk, only=None):
         for seq in itertools.permutations([3, 4, 5], 3) if not q else [(3, 4, 3), (4, 3, 4), (5, 3, 5)]:
             calls = []
 
+            class Tok:
+                """formal operator: remembers the RSL it was convolved from; any arithmetic on it yields a DERIVED token (an operator that
+                was not obtained by convolving the RSL of its own (label, nf))"""
+
+                def __init__(self, rid, derived=False):
+                    self.rid, self.derived = rid, derived
+
+                def _d(self, *_a):
+                    return Tok(self.rid, True)
+
+                __mul__ = __rmul__ = __truediv__ = __add__ = __radd__ = __sub__ = __rsub__ = __neg__ = _d
+
+                def __getitem__(self, i):
+                    return ("formal", self.rid if not self.derived else None)[i]
+
             def fake_convolve_operator(rsl, interpolator):
                 calls.append(rsl)
-                return ("formal", id(rsl)), None
+                return Tok(id(rsl)), None
 
             made = {}
             orig_labels = split.raw_labels
@@ -457,7 +493,11 @@ def run(chk, only=None):
                 snap = {}
                 okm = True
                 for nf in seq + seq:
-                    sv.compute_raw(nf)
+                    try:
+                        sv.compute_raw(nf)
+                    except Exception:  # noqa  -- arithmetic on memo entries the formal tokens do not support: not the documented memo
+                        okm = False
+                        break
                     for d in sv.raw_labels:
                         for l in d:
                             v = sv.operators.get((l, nf))
@@ -468,14 +508,19 @@ def run(chk, only=None):
                             snap[(l, nf)] = v
                 # every (label, nf) built exactly once, with its own nf
                 once = all(made.get((l, nf), 0) == 1 for d in sv.raw_labels for l in d for nf in set(seq))
-                right = all(c[1] in [l for d in sv.raw_labels for l in d] for c in calls) and all(
+                right = okm and all(c[1] in [l for d in sv.raw_labels for l in d] for c in calls) and all(
                     sv.operators[(c[1], c[2])][1] == id(c) for c in calls)
             chk.obligations += 1
             chk.evaluations += 1
             if okm and once and right:
                 chk.discharged += 1
             else:
-                chk.report(f"memo:compute_raw:{seq}", f"compute_raw memo is not transparent for the nf sequence {seq}", "memo", dict(what="compute_raw", seq=list(seq)))
+                # decided by the numbers (see replay_memo): equal building blocks -> the deviation from the structural claim is a legitimate re-use
+                if chk._try_replay(replay_memo, dict(what="compute_raw", seq=list(seq))):
+                    chk.report(f"memo:compute_raw:{seq}", f"compute_raw memo is not transparent for the nf sequence {seq}", "memo", dict(what="compute_raw", seq=list(seq)))
+                else:
+                    chk.discharged += 1
+                    chk.notes.append(f"compute_raw{seq}: blocks are not all convolved from their own RSL, but equal those of fresh managers (real convolutions)")
         # consumers of the memo must not modify it: fact_matrices twice on the same manager (symbolic 2x2 operators)
         for nf, order in itertools.product((3, 4, 6) if q else (3, 4, 5, 6), (1, 2)):
             with Ctx(chk.seed) as ctx:
